@@ -17,6 +17,11 @@ from .sym import R, SymBool
 
 SEED = int(os.environ.get("VERIF_SEED", "0") or 0)
 
+# A single query may not take the machine down: on a changed tree nlsat has been seen to allocate tens of GB within
+# seconds (the worker was then killed by the kernel and the pool waited for it for ever). z3 gives up on the query
+# instead ("unknown" -- inconclusive, then the replay decides).
+z3.set_param("memory_max_size", int(os.environ.get("VERIF_Z3_MEMORY_MB", "3000")))
+
 
 def _z(b):
     if isinstance(b, SymBool):
@@ -193,7 +198,10 @@ class Session:
         for c in constraints:
             s.add(c)
         t = time.time()
-        r = s.check()
+        try:
+            r = s.check()
+        except z3.Z3Exception:  # out of memory / resource limit inside z3: the query is inconclusive
+            r = z3.unknown
         dt = time.time() - t
         self.solver_time += dt
         model = None
